@@ -1,6 +1,6 @@
 (* Relabel.v - a checked call reads its arrays only through their shapes and through the answers of the
    annotations' dtype tables.  Two inputs whose arrays agree on these (same shape, same answer from every table D
-   admits) give the same verdict, the same report, the same decision whether the body runs; the value handed back
+   lets in) give the same verdict, the same report, the same decision whether the body runs; the value handed back
    is the body's own.  C15 instantiates D with the class tables and the shared dtypes. *)
 From DL Require Import Base Lexer Parser Eval Shape Dtypes Check Context Hints Call.
 
